@@ -462,6 +462,9 @@ func evalRT(spec *iso8583.MessageSpec, st *impl.Tree, wire bool) (class, detail 
 		if d := remarshalDiff(spec, ptr, m1); d != "" {
 			return "value", d, true
 		}
+		if d := marshalAfterUnsetDiff(spec, ptr); d != "" {
+			return "value", d, true
+		}
 	}
 	src := m1
 	if wire {
@@ -563,6 +566,78 @@ func remarshalDiff(spec *iso8583.MessageSpec, ptr reflect.Value, fresh *iso8583.
 		} else if got != before {
 			return fmt.Sprintf("data element %d is not written by the struct, held %q and holds %q after Marshal", id, before, got)
 		}
+	}
+	return ""
+}
+
+// sparser: a copy of the struct value v in which every other non-zero leaf member is zero
+// (struct pointers are followed and copied)
+func sparser(v reflect.Value, n *int) reflect.Value {
+	out := reflect.New(v.Type()).Elem()
+	for i := 0; i < v.NumField(); i++ {
+		f := v.Field(i)
+		if f.Kind() == reflect.Ptr && !f.IsNil() && f.Elem().Kind() == reflect.Struct && f.Elem().NumField() > 0 && f.Elem().Type().PkgPath() == "" {
+			c := sparser(f.Elem(), n)
+			p := reflect.New(c.Type())
+			p.Elem().Set(c)
+			out.Field(i).Set(p)
+			continue
+		}
+		if f.IsZero() {
+			continue
+		}
+		*n++
+		if *n%2 == 1 {
+			out.Field(i).Set(f)
+		}
+	}
+	return out
+}
+
+// marshalAfterUnsetDiff: Marshal(A), unset every data element, Marshal(B) with B sparser than A -
+// the message must be what Marshal(B) into a new message gives (nothing of A may come back)
+func marshalAfterUnsetDiff(spec *iso8583.MessageSpec, ptr reflect.Value) (diff string) {
+	defer func() {
+		if r := recover(); r != nil {
+			diff = fmt.Sprintf("panic in Marshal / UnsetField / Marshal: %v", r)
+		}
+	}()
+	n := 0
+	bv := sparser(ptr.Elem(), &n)
+	if n < 2 {
+		return ""
+	}
+	b := reflect.New(bv.Type())
+	b.Elem().Set(bv)
+	used := iso8583.NewMessage(spec)
+	if used.Marshal(ptr.Interface()) != nil {
+		return ""
+	}
+	ids := make([]int, 0)
+	for id := range used.GetFields() {
+		if id != 1 { // the MTI too; the bitmap field is part of every message
+			ids = append(ids, id)
+		}
+	}
+	sort.Ints(ids)
+	for k, id := range ids {
+		if k%2 == 0 {
+			used.UnsetField(id)
+		} else if used.UnsetFields(strconv.Itoa(id)) != nil {
+			return ""
+		}
+	}
+	want := iso8583.NewMessage(spec)
+	if want.Marshal(b.Interface()) != nil || used.Marshal(b.Interface()) != nil {
+		return ""
+	}
+	if !samePresence(used, want) {
+		return "Marshal(A), every data element unset, Marshal(B): the set (sub)fields differ from Marshal(B) into a new message - values of A came back"
+	}
+	p1, e1 := used.Pack()
+	p2, e2 := want.Pack()
+	if (e1 == nil) != (e2 == nil) || (e1 == nil && string(p1) != string(p2)) {
+		return fmt.Sprintf("Marshal(A), every data element unset, Marshal(B): packs to %x, Marshal(B) into a new message packs to %x", p1, p2)
 	}
 	return ""
 }
